@@ -284,12 +284,26 @@ def check_layout(stats, case, seq1, seq2):
 
 
 def shards(tier):
-    return [('spelled', k) for k in range(8)] + [('raw', k) for k in range(4)] + [('layout', k) for k in range(4)]
+    return [('spelled', k) for k in range(8)] + [('raw', k) for k in range(4)] + [('layout', k) for k in range(4)] + \
+        ([('atheris', k) for k in range(4)] if tier == 'thorough' else [])
 
 
 def run_shard(desc, seed, tier):
     kind, k = desc
     stats = Stats()
+    if kind == 'atheris':
+        from harness.fuzz import campaign
+
+        def recheck(text):
+            try:
+                return check_text(Stats(), text)
+            except Discard:
+                return None
+        seeds = [] if k % 2 == 0 else ['int x = 0x1F + 0b10 - 0o7; // c\n"a\\n\\x41" \'\\\'\' @is_you !f <= >= == != ?? += 1_000',
+                                       'empty @is_you() { write("hi"); /* x */ }']
+        for sig, msg, text in campaign('c12', derive_seed(seed, 'C12', kind, k), 400000, seeds, stats, recheck):
+            stats.violation({'kind': 'text', 'text': text, 'message': msg, 'signature': sig + ':atheris'})
+        return stats
     if kind in ('spelled', 'raw'):
         strat = spelled_text() if kind == 'spelled' else raw_text()
         n = 3000 if tier == 'quick' else 40000
